@@ -96,6 +96,21 @@ Qed.
 Lemma has_scale_opaque n : eb_has_scale 0 n = false /\ eb_has_offset 0 n = false.
 Proof. split; reflexivity. Qed.
 
+(* the guards of the scale / offset getters test exactly the bit the specification gives them (ASPRS LAS 1.4 R15, table 25:
+   options bit 3 = scale is relevant, bit 4 = offset is relevant), each its own, for every documented type and every options
+   byte: a complete sweep over 30 x 256 *)
+Definition option_bits_okb (id opt : Z) : bool :=
+  Bool.eqb (eb_has_scale id opt) (Z.testbit opt 3) && Bool.eqb (eb_has_offset id opt) (Z.testbit opt 4).
+Lemma option_bits_sweep : forall_below 30 (fun i => forall_below 256 (fun opt => option_bits_okb (i + 1) opt)) = true.
+Proof. vm_compute. reflexivity. Qed.
+Theorem option_bits id opt : 1 <= id <= 30 -> 0 <= opt < 256 ->
+  eb_has_scale id opt = Z.testbit opt 3 /\ eb_has_offset id opt = Z.testbit opt 4.
+Proof.
+  intros Hid Hopt. pose proof (forall_below_spec _ _ option_bits_sweep (id - 1) ltac:(lia)) as H. cbn beta in H.
+  pose proof (forall_below_spec _ _ H opt Hopt) as H2. cbn beta in H2. replace (id - 1 + 1) with id in H2 by lia.
+  unfold option_bits_okb in H2. apply andb_true_iff in H2 as [H3 H4]. apply Bool.eqb_prop in H3, H4. now split.
+Qed.
+
 Lemma opaque_type_big n : 4 <= n -> opaque_type n = TOpaque n.
 Proof.
   intros Hn. unfold opaque_type.
@@ -534,7 +549,7 @@ Proof.
   split; [|now repeat split].
   cbn [op_okb] in Hok. apply andb_true_iff in Hok as [Hpd Hpf].
   apply nodupb_NoDup in Hnd. apply nodupb_NoDup in Hpd.
-  assert (forall n, In n (extra_names ps) -> ~ In n (extra_names (st_extras s)) /\ mem_name n (std_names (st_fmt s)) = false) as Hfresh.
+  assert (forall n, In n (extra_names ps) -> ~ In n (extra_names (st_extras s)) /\ mem_name n (rec_names (st_fmt s)) = false) as Hfresh.
   { intros n Hn. pose proof (proj1 (forallb_forall _ _) Hpf n Hn) as Hf. apply andb_true_iff in Hf as [H1 H2].
     apply negb_true_iff in H1, H2. split; [now apply mem_name_false|exact H2]. }
   split; [|exact Hinv']. constructor; cbn [st_fmt st_extras st_recs st_vlrs].
@@ -1038,7 +1053,7 @@ Proof. induction a as [|x a IH]; intros H; [constructor|]. inversion H; subst. c
 (* the state a truncated read produces satisfies the base invariant, and its VLR describes all but the last dimension *)
 Lemma reread_part_inv s std kept rest' vl' :
   InvB s -> std_size (st_fmt s) = Some std -> st_extras s = kept ++ rest' -> rest' <> [] ->
-  ~ In UNREG_NAME (extra_names kept) -> mem_name UNREG_NAME (std_names (st_fmt s)) = false -> extras_size rest' <= 255 ->
+  ~ In UNREG_NAME (extra_names kept) -> mem_name UNREG_NAME (rec_names (st_fmt s)) = false -> extras_size rest' <= 255 ->
   vlr_desc kept vl' ->
   let ex' := kept ++ [unreg (extras_size rest')] in
   Inv2 (mkSt (st_fmt s) ex' (map (split_rec std ex') (map rec_bytes (st_recs s))) vl').
@@ -1110,7 +1125,7 @@ Proof.
       { apply Nat.eqb_neq. intros He. rewrite He, skipn_all in Esk. discriminate. }
       rewrite Hlen in Hok. cbn [orb] in Hok. split_andb.
       match goal with H : negb (mem_name _ (extra_names kept)) = true |- _ => apply negb_true_iff, mem_name_false in H; rename H into Hfresh end.
-      match goal with H : negb (mem_name _ (std_names _)) = true |- _ => apply negb_true_iff in H; rename H into Hnstd end.
+      match goal with H : negb (mem_name _ (rec_names _)) = true |- _ => apply negb_true_iff in H; rename H into Hnstd end.
       assert (extras_size (d :: rest') <= 255) as H255 by lia.
       assert (vlr_desc kept (trunc_vlrs keep (st_vlrs s))) as Hd' by (now apply vlr_desc_trunc).
       pose proof (reread_part_inv s std kept (d :: rest') _ HB Hstd (eq_sym Hks) ltac:(discriminate) Hfresh Hnstd H255 Hd') as Hres.
@@ -1133,7 +1148,7 @@ Proof.
     { rewrite Hex, forallb_app in Hdims. apply andb_true_iff in Hdims as [H1 H2]. cbn [forallb] in H2. now rewrite andb_true_r in H2. }
     assert (In UNREG_NAME (extra_names (st_extras s))) as Huin.
     { rewrite Hex. unfold extra_names. rewrite map_app. apply in_or_app. right. now left. }
-    assert (mem_name UNREG_NAME (std_names (st_fmt s)) = false) as Hnstd.
+    assert (mem_name UNREG_NAME (rec_names (st_fmt s)) = false) as Hnstd.
     { pose proof (proj1 (forallb_forall _ _) Hns _ Huin) as H. now apply negb_true_iff in H. }
     assert (~ In UNREG_NAME (extra_names reg)) as Hnreg.
     { apply nodupb_NoDup in Hnd. rewrite Hex in Hnd. unfold extra_names in Hnd. rewrite map_app in Hnd. cbn [map unreg ed_name] in Hnd.
@@ -1254,7 +1269,7 @@ Qed.
 (* a LasData made from a PointFormat that already carries extra dimensions starts with the invariant: the VLR is there *)
 Theorem init_ex_inv fmt ex recs vl eb_last std : std_size fmt = Some std ->
   forallb edim_okb ex = true -> nodupb (extra_names ex) = true ->
-  forallb (fun n => negb (mem_name n (std_names fmt))) (extra_names ex) = true ->
+  forallb (fun n => negb (mem_name n (rec_names fmt))) (extra_names ex) = true ->
   (forall b, In b recs -> len b = std + extras_size ex) -> filter is_eb_vlr vl = [] ->
   exists s, init_ex fmt ex recs vl eb_last = Ok s /\ Inv s /\ st_fmt s = fmt /\ st_extras s = ex
             /\ map rec_bytes (st_recs s) = recs /\ filter not_eb (st_vlrs s) = vl.
@@ -1492,12 +1507,20 @@ Proof.
   - right. destruct (nodupb names) eqn:E; [|reflexivity]. apply nodupb_NoDup in E. contradiction.
 Qed.
 
-Theorem remove_standard s names n : Inv2 s -> In n (std_names (st_fmt s)) -> In n names ->
+(* a standard dimension cannot be removed.  A field of the record (X, intensity, bit_fields, gps_time ...) is never the name of
+   an extra dimension (invariant), so naming it is refused outright; a sub field (return_number, synthetic, overlap ...) is
+   refused unless an extra dimension carries that very name — then it is that extra dimension that goes (remove_ok), and the
+   standard sub field stays: the standard dimensions are a function of the format id (dim_names), which no removal changes *)
+Theorem remove_record_field s names n : Inv2 s -> In n (rec_names (st_fmt s)) -> In n names ->
   step s (Remove names) = (s, Err ELaspy).
 Proof.
   intros [[_ _ [_ Hns]] _] Hstd Hin. apply remove_bad. left. exists n. split; [exact Hin|]. intros Hex.
   pose proof (proj1 (forallb_forall _ _) Hns n Hex) as Hf. apply negb_true_iff in Hf. apply mem_name_false in Hf. contradiction.
 Qed.
+
+Theorem remove_standard s names n : Inv2 s -> In n (std_names (st_fmt s)) -> ~ In n (extra_names (st_extras s)) -> In n names ->
+  step s (Remove names) = (s, Err ELaspy).
+Proof. intros _ _ Hne Hin. apply remove_bad. left. exists n. now split. Qed.
 
 (* an accepted removal removes exactly the named dimensions, in order *)
 Theorem remove_ok s names : Inv2 s -> (forall n, In n names -> In n (extra_names (st_extras s))) -> NoDup names ->
@@ -1716,12 +1739,79 @@ Qed.
 
 Theorem run_names s ops : Inv2 s -> ops_okb s ops = true ->
   NoDup (extra_names (st_extras (run s ops)))
-  /\ (forall n, In n (extra_names (st_extras (run s ops))) -> ~ In n (std_names (st_fmt (run s ops))))
+  /\ (forall n, In n (extra_names (st_extras (run s ops))) -> ~ In n (rec_names (st_fmt (run s ops))))
   /\ forallb edim_okb (st_extras (run s ops)) = true.
 Proof.
   intros Hinv Hok. destruct (run_inv2 ops s Hinv Hok) as [[_ Hdims [Hnd Hns]] _].
   split; [now apply nodupb_NoDup|]. split; [|exact Hdims].
   intros n Hn. pose proof (proj1 (forallb_forall _ _) Hns n Hn) as Hf. apply negb_true_iff in Hf. now apply mem_name_false.
+Qed.
+
+(* ------------------------------------------------------------------------------------ *)
+(* round 6: the hypothesis on names is "the fields of the record are pairwise different"  *)
+(* ------------------------------------------------------------------------------------ *)
+(* it is weaker than the one of the earlier rounds (no standard dimension name at all) *)
+Lemma rec_names_weaker fmt n : mem_name n (std_names fmt) = false -> mem_name n (rec_names fmt) = false.
+Proof. unfold std_names, mem_name. rewrite existsb_app. intros H. now apply orb_false_iff in H as [H _]. Qed.
+
+(* PointFormat.dimensions after a step: the standard dimensions of the format the state had — whatever the names of the extra
+   dimensions that were added or removed — then the extra dimensions *)
+Theorem step_dim_names s o : Inv2 s -> (forall g stds, o <> Convert g stds) ->
+  dim_names (fst (step s o)) = std_dim_names (st_fmt s) ++ extra_names (st_extras (fst (step s o))).
+Proof. intros Hinv Hnc. unfold dim_names. now rewrite (step_fmt s o Hinv Hnc). Qed.
+
+Lemma filter_all_true {A} (f : A -> bool) l : (forall x, In x l -> f x = true) -> filter f l = l.
+Proof. induction l as [|x l IH]; intros H; [reflexivity|]. cbn [filter]. rewrite (H x (or_introl eq_refl)). f_equal. apply IH. intros y Hy. apply H. now right. Qed.
+
+Lemma filter_names_single n (ex : list edim) : NoDup (extra_names ex) -> In n (extra_names ex) ->
+  exists a d b, ex = a ++ d :: b /\ ed_name d = n /\ filter (fun d => negb (mem_name (ed_name d) [n])) ex = a ++ b.
+Proof.
+  induction ex as [|d ex IH]; intros Hnd Hin; [destruct Hin|]. cbn [extra_names map] in Hnd, Hin. inversion Hnd as [|? ? Hni Hnd']; subst.
+  cbn [filter mem_name existsb]. rewrite orb_false_r.
+  destruct Hin as [He|Hin].
+  - exists [], d, ex. split; [reflexivity|]. split; [exact He|]. subst n. rewrite name_eqb_refl. cbn [negb app].
+    apply filter_all_true. intros d' Hd'. cbn [mem_name existsb]. rewrite orb_false_r. apply negb_true_iff.
+    apply name_eqb_neq. intros He. apply Hni. rewrite <- He. now apply in_map.
+  - destruct (IH Hnd' Hin) as (a & d0 & b & -> & Hn0 & Hf). exists (d :: a), d0, b. split; [reflexivity|]. split; [exact Hn0|].
+    rewrite name_eqb_neq.
+    + cbn [negb app]. f_equal. cbn [mem_name existsb] in Hf. exact Hf.
+    + intros He. apply Hni. rewrite He. exact Hin.
+Qed.
+
+(* the class of the sixth batch: an extra dimension that is called like a standard dimension of the format (a sub field).
+   Removing it by that name is accepted; exactly that one extra dimension goes; the dimension list still has the name — as the
+   standard dimension it always was —; the standard bytes of every record and every other extra dimension are as before *)
+Theorem remove_named_like_standard s n : Inv2 s -> In n (std_dim_names (st_fmt s)) -> In n (extra_names (st_extras s)) ->
+  let s' := fst (step s (Remove [n])) in
+  snd (step s (Remove [n])) = Ok tt /\ Inv s'
+  /\ (exists a d b, st_extras s = a ++ d :: b /\ ed_name d = n /\ st_extras s' = a ++ b)
+  /\ ~ In n (extra_names (st_extras s'))
+  /\ dim_names s' = std_dim_names (st_fmt s) ++ extra_names (st_extras s') /\ In n (dim_names s')
+  /\ map fst (st_recs s') = map fst (st_recs s)
+  /\ (forall m, In m (extra_names (st_extras s)) -> m <> n ->
+        In m (extra_names (st_extras s')) /\ map (field_of m) (st_recs s') = map (field_of m) (st_recs s)).
+Proof.
+  intros Hinv Hstd Hex s'.
+  assert (forall m, In m [n] -> In m (extra_names (st_extras s))) as Hall by (intros m [<-|[]]; exact Hex).
+  assert (NoDup [n]) as Hnd1 by (constructor; [intros []|constructor]).
+  destruct (remove_ok s [n] Hinv Hall Hnd1) as (Hr & He & Hi). fold s' in He, Hi.
+  pose proof (Inv2_B s Hinv) as HB. destruct HB as [_ _ [Hnd _]]. apply nodupb_NoDup in Hnd.
+  destruct (filter_names_single n (st_extras s) Hnd Hex) as (a & d & b & Hsplit & Hdn & Hf).
+  assert (forall g stds, Remove [n] <> Convert g stds) as Hnc by (intros; discriminate).
+  pose proof (step_dim_names s (Remove [n]) Hinv Hnc) as Hdims. fold s' in Hdims.
+  assert (~ In n (extra_names (st_extras s'))) as Hgone.
+  { rewrite He. intros Hi'. apply in_map_iff in Hi' as (d' & Hn' & Hd'). apply filter_In in Hd' as [_ Hd'].
+    rewrite Hn' in Hd'. cbn [mem_name existsb] in Hd'. now rewrite name_eqb_refl in Hd'. }
+  split; [exact Hr|]. split; [exact Hi|]. split; [exists a, d, b; rewrite He, Hf; now repeat split|]. split; [exact Hgone|].
+  split; [exact Hdims|]. split; [rewrite Hdims; apply in_or_app; now left|].
+  split; [now apply std_bytes_step|].
+  intros m Hm Hne.
+  assert (~ In m (op_names (Remove [n]))) as Hnot by (cbn [op_names]; intros [H|[]]; now apply Hne).
+  destruct (step_frame s (Remove [n]) m Hinv eq_refl Hm Hnot) as [Hkeep _]. fold s' in Hkeep.
+  assert (In m (extra_names (st_extras s'))) as Hin'.
+  { rewrite He. apply in_map_iff in Hm as (d' & <- & Hd'). apply in_map. apply filter_In. split; [exact Hd'|].
+    cbn [mem_name existsb]. rewrite orb_false_r. apply negb_true_iff. apply name_eqb_neq. intros H. now apply Hne. }
+  split; [exact Hin'|]. now apply Hkeep.
 Qed.
 
 (* ------------------------------------------------------------------------------------ *)
